@@ -24,7 +24,10 @@ CHECKS = {
              'generator behind a seeded entropy seam, strict on/off) connected over a fault-free simulated network '
              '(virtual latencies, seeded event-loop schedules) to the real pjrpc dispatcher (sync/async, def and async '
              'def methods); every wire document is checked against a reference request document and every caller '
-             'outcome against direct invocation of the function body. Sampled, not exhaustive.',
+             'outcome against direct invocation of the function body. Sampled, not exhaustive.'
+             ' Families: single operations in two notations, batches in two notations, and 2-3 callers sharing one '
+             'async client with overlapping calls; every (client, dispatcher, flavour, id generator, strict) '
+             'configuration is forced systematically.',
         note='Trusted: the reference request-document validator and the direct-invocation oracle (pjsim/ref, '
              'pjsim/service); the transport is SimNet at the _request seam, not an HTTP back-end.',
         technique='deterministic simulation: seeded two-party runs, virtual-time event loop, differential oracle vs direct call',
@@ -38,7 +41,11 @@ CHECKS = {
              'sends, every pause (exact equality with the closed backoff formulas), the absence of pauses before the '
              'first and after the last send, and the identity of the outcome reaching the caller are compared with a '
              'reference retry model. Sampled over strategies, placements (client-wide / per-request / disabled / '
-             'replaced), request kinds and both clients.',
+             'replaced), request kinds and both clients.'
+             ' Systematic part: every outcome sequence of length n+2 over the property\'s outcome alphabet for n <= 1 '
+             '(quick) / n <= 3 (thorough) x single / batch / notification. History families: several requests on one '
+             'long-lived client (the retry budget must be per request). Calls are also issued while the caller handles '
+             'an unrelated exception.',
         note='Trusted: ref_retry (closed formulas), the time seam (pjrpc.client.retry.time / .asyncio and time.sleep '
              'shimmed), SimNet. Jitter callables are constants; durations are dyadic rationals so equality is exact.',
         technique='deterministic simulation: scripted per-attempt fault sequences, virtual clock, reference retry model',
@@ -51,7 +58,10 @@ CHECKS = {
              'caller task at seeded virtual instants (before the first send, inside the transport, inside a backoff '
              'sleep, after the reply). The recorded history is checked for begin/completion pairing per tracer and '
              'attempt, completion kind and payload, configuration order, context and request identity, and identity of '
-             'the exception reaching the caller.',
+             'the exception reaching the caller.'
+             ' Further families: several requests on one long-lived client; 2-3 tasks on one async client and 2-3 baton '
+             'threads on one sync client with overlapping attempts (pairing judged per request object); calls issued '
+             'while the caller handles an unrelated exception.',
         note='Trusted: the pairing oracle (Appendix F.6), SimLoop cancellation timing, SimNet. Tracers do not raise.',
         technique='deterministic simulation: fault sequences + seeded cancellation instants, history pairing oracle',
     ),
@@ -108,7 +118,9 @@ CHECKS = {
              '0-3) and error handlers (identity, code-replacing, annotating; generic / per-code / several per key) on the '
              'real sync and async dispatchers; per request element the projected event log and the reply are compared '
              'with a reference chain, for successes, every failure class, notifications, batches and rejected documents; '
-             'async chains suspend and interleave under seeded schedules.',
+             'async chains suspend and interleave under seeded schedules.'
+             ' Each run delivers 1-3 documents to the same long-lived dispatcher; asynchronous middlewares are coroutine '
+             'functions or plain functions returning the awaitable.',
         note='Trusted: ref_chain (Appendix F.3). Middlewares / handlers do not raise.',
         technique='deterministic simulation: instrumented callee chain, per-element event-log oracle vs reference chain',
     ),
@@ -134,7 +146,9 @@ CHECKS = {
              'batch-level error, corrupted member-wise, unwrapped or made undecodable; every (size, fault kind, strict, '
              'client kind, notation) combination is forced, fault arguments seeded. The client verdict (identity / '
              'deserialisation error, acceptance, related links, positional and tuple attribution in call order, first '
-             'failing call, batch-level error) is compared with a reference matcher.',
+             'failing call, batch-level error) is compared with a reference matcher.'
+             ' A third family re-uses one batch object: sent, grown (extend / append / add / getitem), sent again with a '
+             'permuted reply.',
         note='Trusted: ref_client.match_single / match_batch (Appendix F.2). Open zones (null ids inside a batch array, '
              'non-strict mismatches) are not judged.',
         technique='deterministic simulation: enumerated response-leg faults on real client-server exchanges, reference matcher',
@@ -147,7 +161,9 @@ CHECKS = {
              'on AsyncDispatcher with coroutine methods and on AsyncDispatcher with plain functions, under a seeded '
              'schedule; reply document, codes, executions and per-element chain logs compared. Client half: the same '
              'scripted transport behaviour (per-attempt faults, retry strategy, tracers) on the sync and async client; '
-             'request documents, sleeps, caller outcome, tracer events and executions compared.',
+             'request documents, sleeps, caller outcome, tracer events and executions compared.'
+             ' History families: the same sequence of requests on long-lived twin clients and on long-lived twin '
+             'dispatchers.',
         note='No reference model is involved; the false-alarm surface is the projection to schedule-invariant '
              'observations. The simulator\'s own sync/async instrumentation is equivalent by construction.',
         technique='deterministic simulation: same seeded scenario on both stacks, schedule-invariant history projection compared',
@@ -161,7 +177,10 @@ CHECKS = {
              'schedules; (d) 1 / 10 / 1000 dispatches with a fresh context each, for function methods (context by name '
              'and positional), class-based views and the base / jsonschema / pydantic validators, sync and async, then '
              'gc.collect() and a census of weak references to contexts, view instances, parsed requests and responses '
-             '(all must be dead), plus the error-class registry unchanged.',
+             '(all must be dead), plus the error-class registry unchanged.'
+             ' (e) a dispatch cancelled at a seeded virtual instant while its elements are suspended: afterwards a probe '
+             'request must be answered as by a fresh dispatcher, nothing of the cancelled dispatch may make progress, and '
+             'its context must be collectable.',
         note='Trusted: baton scheduler (pre-emption only at line events of pjrpc / service files), CPython gc as the '
              'oracle for "no strong reference kept". The pydantic variant runs only if a smoke validation succeeds under '
              'the installed pydantic; the evidence says whether it ran.',
@@ -174,7 +193,9 @@ CHECKS = {
              'unrelated, missing) and body faults (wire corruption, invalid UTF-8) x status-by-error functions x endpoint '
              'prefixes x batch limits. Each reply is compared with the verdict recorded at the wrapped dispatcher (body '
              'JSON-equal, application/json, status function applied, 200 + empty body for no verdict, 415 and nothing '
-             'executed for other media types) and the three replies with each other.',
+             'executed for other media types) and the three replies with each other.'
+             ' Each run issues 1-3 POSTs on the same long-lived applications (main endpoint and a sub-endpoint with its '
+             'own dispatcher; the serving dispatcher is identified).',
         note='Trusted: the in-process hops (WSGI test clients; aiohttp handler awaited on SimLoop with a mocked request '
              'and a real StreamReader). One hop, no clock: weakest simulation content after C01. Known finding: Flask 3.1 '
              'JSON provider vs pjrpc encoder (see known_findings.json).',
